@@ -50,6 +50,12 @@ fn main() {
             p.configs = vec![dbx::default_cfg(), dbx::cfg(4096, 64, 2, 3, 2), dbx::cfg(4096, 1000, 16, 4, 3), dbx::cfg(8192, 200, 4, 3, 1)];
             hist::run_profile(&p, seed, shard, if tier == "thorough" { 4000 } else { 300 });
         }
+        "C12" => {
+            if shard == 0 {
+                witness::run_witnesses("C12");
+            }
+            c12::run(seed, &tier, shard);
+        }
         "C13" => {
             if shard == 0 {
                 witness::run_witnesses("C13");
